@@ -26,6 +26,7 @@ def run(rep):
     rep.guard(v4, rep, rel)
     rep.guard(v5, rep, dev)
     rep.guard(v6, rep, dev)
+    rep.guard(v7, rep, dev)
     import c09, c16
     rep.guard(c09.f4, rep, dev)     # an error raised after the raw active-fiber pointer was switched is reported on another fiber in builds that read the pointer
     rep.guard(c16.g2, rep, dev)     # the paced and the stress collector run at the same point of an allocation (before the new object is registered)
@@ -520,3 +521,43 @@ def v6(rep, w, rid='V6'):
                         'larger the checked build panics and the optimised build wraps to a count near usize::MAX', f.loc(s_.get('sp')))
     r.note('differences of two program-chosen lengths on this tree: %d' % n)
     r.ok('census of length differences: %d' % n)
+
+
+def v7(rep, w):
+    """nothing the interpreter decides may depend on the clock: a reading of the clock differs between the build configurations, between
+    machines and between two runs. A clock value may be stored and may be handed to the program (the `clock` native); it must not reach
+    a comparison or a branch. (Until fix 64c9574 the range cache chose its eviction victim with `a.elapsed().cmp(&b.elapsed())`, two
+    readings taken one after the other: entries created closer together than the two readings compared the wrong way round, and since
+    ranges compare by identity programs saw `==` flip from run to run.)"""
+    r = rep.rule('V7', 'no comparison or branch of the interpreter depends on a reading of the clock', floor=0)
+    n = 0
+    reach = w.reach_from({'yarel::vm::Vm::run'})
+    for p_ in sorted(reach):
+        f = w.fns.get(p_)
+        if f is None or f.crate is not w.yarel:
+            continue
+        reads = [bi for bi, t in f.calls() if strip_generics(callee_name(t) or '').startswith(('std::time::Instant::', 'std::time::SystemTime::', 'std::time::Duration::')) and
+                 strip_generics(callee_name(t) or '').rsplit('::', 1)[-1] in ('now', 'elapsed', 'duration_since', 'checked_duration_since', 'saturating_duration_since')]
+        if not reads:
+            continue
+        n += len(reads)
+        org = origins(f, through_calls='all')
+        tainted = set()
+        for l, qs in org.items():
+            if any(q[0][0] == 'call' and q[0][1] in reads for q in qs):
+                tainted.add(l)
+        used = []
+        for bi in f.normal_blocks():
+            t = f.blocks[bi]['t']
+            if t['t'] == 'switch' and (op_place(t['d']) or {}).get('l') in tainted and not all('#discr' in q for q in org.get(op_place(t['d'])['l'], ())):
+                used.append('a branch')      # (a match on the Ok / Err of the clock call itself is error handling, not a decision by time)
+            if t['t'] == 'call' and (callee_name(t) or '').rsplit('::', 1)[-1] in ('cmp', 'partial_cmp', 'lt', 'le', 'gt', 'ge', 'eq', 'ne', 'max', 'min') and \
+                    any((op_place(a) or {}).get('l') in tainted for a in t['args']):
+                used.append((callee_name(t) or '').rsplit('::', 1)[-1])
+            for s_ in f.blocks[bi]['s']:
+                rr = s_.get('r', {})
+                if rr.get('rv') == 'bin' and rr['op'] in ('Lt', 'Le', 'Gt', 'Ge', 'Eq', 'Ne') and any((op_place(o) or {}).get('l') in tainted for o in (rr['a'], rr['b'])):
+                    used.append(rr['op'])
+        r.check(not used, '%s reads the clock without deciding anything by it' % p_.replace('yarel::', ''),
+                '%s compares or branches on a reading of the clock (%s): what the program observes then depends on timing' % (p_, sorted(set(used))), f.loc())
+    r.ok('census of clock readings in code reachable from Vm::run: %d' % n)
